@@ -287,6 +287,18 @@ func r202(c *Ctx) {
 	for w, what := range want {
 		c.ob(rule, "preRun/refuses "+what, pre.Pos(), seen[w], true, "guard: "+w)
 	}
+	// what was validated is what is sent: after the pre-flight nothing in the CLI changes an option the refusals test
+	for _, fname2 := range []struct{ typ, field string }{{"ServiceOptions", "TLSEnabled"}, {"ServiceOptions", "Hosts"}, {"ServiceOptions", "PathPrefixes"}, {"TargetOptions", "BufferRequests"}, {"TargetOptions", "BufferResponses"}, {"TargetOptions", "MaxRequestBodySize"}, {"TargetOptions", "MaxResponseBodySize"}} {
+		f := c.field(fname2.typ, fname2.field)
+		for _, w := range c.writesOfField(f) {
+			o := outer(w.fn)
+			if o.Pkg != c.cmd {
+				continue
+			}
+			okW := o == pre || o.Name() == "newDeployCommand" || o.Name() == "init"
+			c.ob(rule, "write "+fname2.typ+"."+fname2.field+" in "+fname(o), w.instr.Pos(), okW, true, "an option the pre-flight refusals depend on may be set only by the flag bindings and by preRun itself: changing it afterwards (in run) sends the proxy something that was never validated")
+		}
+	}
 	// every successful path passes all the tests: the three top-level tests lie on every path; inside TLS both inner tests
 	isTest := func(pred func(in ssa.Instruction) bool) bool {
 		_, skip := reach(pre, nil, func(in ssa.Instruction) bool {
